@@ -438,10 +438,15 @@ func (m *Mux) serveHTTP(w http.ResponseWriter, r *http.Request) (rerr error) {
 
 		if herr != nil {
 			s, _ := status.FromError(herr)
-			// TODO: limit message size.
 
+			// A close frame carries at most 125 bytes: the code and a
+			// reason, which must be valid UTF-8.
+			reason := s.Message()
+			if max := ws.MaxControlFramePayloadSize - 2; len(reason) > max {
+				reason = strings.ToValidUTF8(reason[:max], "")
+			}
 			code := WSStatusCode(s.Code())
-			f := ws.NewCloseFrame(ws.NewCloseFrameBody(code, s.Message()))
+			f := ws.NewCloseFrame(ws.NewCloseFrameBody(code, reason))
 			b, err := ws.CompileFrame(f)
 			if err != nil {
 				return err
